@@ -627,6 +627,143 @@ def solver_reuse_part(ctx, rng):
     ctx.sample({"reuse_spec": specs[-1], "history": todo[-1][0], "probe": todo[-1][1]})
 
 
+# ---------------- special earlier states, long spans, larger krylov systems
+def jc_system(N, g2):
+    """Jaynes-Cummings model (excitation number conserved), coupling g2/2"""
+    from qutip import tensor, qeye, destroy
+    a = tensor(qeye(2), destroy(N))
+    sm = tensor(destroy(2), qeye(N))
+    H = a.dag() * a + sm.dag() * sm + (g2 / 2.0) * (a.dag() * sm + a * sm.dag())
+    return H, a
+
+
+def jc_state(N, code):
+    """special and generic kets of the 2 x N space"""
+    from qutip import tensor, basis, Qobj
+    if code == "g0":            # eigenstate: zero-coupling ground state
+        return tensor(basis(2, 0), basis(N, 0))
+    if code == "e0":            # lives in a 2-dimensional invariant subspace
+        return tensor(basis(2, 1), basis(N, 0))
+    if code == "block_eig":     # eigenstate inside that block (resonant case)
+        return (tensor(basis(2, 1), basis(N, 0)) + tensor(basis(2, 0), basis(N, 1))).unit()
+    if code == "e1":            # another small invariant subspace
+        return tensor(basis(2, 1), basis(N, 1))
+    v = np.zeros((2 * N, 1), dtype=complex)
+    m = 7 if code == "generic" else 11
+    for i in range(2 * N):
+        v[i, 0] = ((i * m) % 5 - 2) + 1j * ((i * 3) % 4 - 1)
+    return Qobj(v, dims=[[2, N], [1, 1]]).unit()
+
+
+def special_solver(case):
+    from qutip.solver.sesolve import SESolver
+    from qutip.solver.mesolve import MESolver
+    H, a = jc_system(case["N"], case["g2"])
+    opt = {"method": case["method"], "progress_bar": ""}
+    if case["solver"] == "se":
+        return SESolver(H, options=opt)
+    return MESolver(H, c_ops=[a / 4.0], options=opt)
+
+
+def special_use(case, solver, code, mode, T, collect):
+    psi = jc_state(case["N"], code)
+    tl = [T * i / 4.0 for i in range(5)]
+    if mode == "run":
+        out = [x.full() for x in solver.run(psi, tl).states]
+    else:
+        solver.start(psi, tl[0])
+        out = [None] + [solver.step(t).full() for t in tl[1:]]
+    return out if collect else None
+
+
+def run_special_case(case):
+    """reused object (earlier uses with special states) vs a new object"""
+    try:
+        ref = special_use(case, special_solver(case), case["probe"], "run", case["T"], True)
+    except Exception as e:
+        return ("skip", type(e).__name__, None)
+    s = special_solver(case)
+    try:
+        for code, mode, T in case["first"]:
+            special_use(case, s, code, mode, T, False)
+        got = special_use(case, s, case["probe"], case["probe_mode"], case["T"], True)
+    except Exception as e:
+        return ("solver-history:" + case["method"],
+                "special-state|%s|raises:%s" % (case["probe_mode"], type(e).__name__),
+                "reused %s/%s solver raises %s after special earlier states: %s" % (
+                    case["solver"], case["method"], type(e).__name__, str(e)[:80]))
+    bit, worst = same_states(got, ref)
+    if bit:
+        return None
+    if case["method"] == "krylov":
+        # validation: the constructor draws a random ket to size the step, so
+        # two new objects already differ at the level of the tolerance
+        atol = float(s.options["atol"])
+        if worst <= 1e3 * atol:
+            return ("within", worst, None)
+        sev = "beyond-solver-tolerance"
+    else:
+        sev = "beyond-tolerance" if worst > 1e-5 else "bitwise-only"
+    kinds = "+".join("%s:%s" % (c, m) for c, m, _ in case["first"])
+    return ("solver-history:" + case["method"],
+            "special-state|%s|%s" % (case["probe_mode"], sev),
+            "%s/%s solver used before on %s answers the %s state (t <= %g, dim %d) %.3g away "
+            "from a new solver" % (case["solver"], case["method"], kinds, case["probe"],
+                                   case["T"], 2 * case["N"], worst))
+
+
+def special_state_part(ctx, rng):
+    """Earlier uses with eigenstates / states of small invariant subspaces, then
+    generic states over spans long against 1/|H| (and the reverse order, and
+    start/step), for every integration method; krylov with krylov_dim < dim."""
+    specials = ["g0", "e0", "block_eig", "e1"]
+    cases = []
+    plan = [("se", m, 10) for m in SE_METHODS] + [("me", m, 3) for m in ME_METHODS]
+    plan += [("se", "krylov", 30)]
+    if not ctx.quick:
+        plan += [("se", "krylov", 50), ("se", "vern7", 30), ("se", "adams", 30),
+                 ("me", "vern7", 5), ("me", "adams", 5)]
+    for solver, method, N in plan:
+        T = 20 if solver == "se" else 8
+        base = {"solver": solver, "method": method, "N": N, "g2": 1, "T": T}
+        steps_ok = True
+        hist = [
+            ([("e0", "run", T)], "generic", "run"),
+            ([("g0", "run", T)], "generic", "run"),
+            ([("generic", "run", T)], "e0", "run"),             # reverse order
+            ([("e0", "steps", 1)], "generic", "steps"),         # start / step
+            ([("block_eig", "run", 2), ("e1", "run", T)], "generic2", "run"),
+        ]
+        nr = 1 if ctx.quick else 4
+        for _ in range(nr):
+            first = [(rng.choice(specials + ["generic"]), rng.choice(["run", "run", "steps"]),
+                      rng.choice([1, T])) for _ in range(rng.choice([1, 2]))]
+            hist.append((first, rng.choice(["generic", "generic2"] + specials),
+                         rng.choice(["run", "steps"])))
+        for first, probe, pm in hist:
+            c = dict(base)
+            c.update({"first": [list(f) for f in first], "probe": probe, "probe_mode": pm})
+            cases.append(c)
+    stats = {"cases": 0, "identical": 0, "within_tolerance_validation": 0, "skipped": 0,
+             "violations": 0, "worst_validation_distance": 0.0}
+    for c in cases:
+        r = run_special_case(c)
+        stats["cases"] += 1
+        ctx.count_case(("special", json.dumps(c, sort_keys=True)), nontrivial=True)
+        if r is None:
+            stats["identical"] += 1
+        elif r[0] == "skip":
+            stats["skipped"] += 1
+        elif r[0] == "within":
+            stats["within_tolerance_validation"] += 1
+            stats["worst_validation_distance"] = max(stats["worst_validation_distance"], r[1])
+        else:
+            stats["violations"] += 1
+            ctx.violation(r[0], r[1], r[2], {"kind": "special", "case": c})
+    ctx.cov["special_state_reuse"] = stats
+    ctx.sample({"special_state_case": cases[0]})
+
+
 def stochastic_part(ctx, rng):
     """StochasticSolver.run_from_experiment must leave the solver as it was:
     a later run(seed) equals the run of a fresh solver."""
@@ -977,7 +1114,9 @@ def run(ctx):
         "(the observed window fronts are fed to the model); TOO_MUCH_WORK / DT_UNDERFLOW "
         "paths are modelled only as 'stop with a negative status'",
         "fresh-vs-reused bitwise comparisons of real solvers are an implementation-level "
-        "oracle (not a proof obligation); SciPy/LAPACK internals are outside",
+        "oracle (not a proof obligation); SciPy/LAPACK internals are outside; for krylov "
+        "with krylov_dim < dimension the comparison is a validation with tolerance "
+        "1e3*atol (the constructor sizes its step from a random ket)",
     ]
 
     def search(failed, log):
@@ -996,6 +1135,7 @@ def run(ctx):
     real_propagator_part(ctx, rng)
     rk_part(ctx, rng)
     solver_reuse_part(ctx, rng)
+    special_state_part(ctx, rng)
     stochastic_part(ctx, rng)
     ctx.cov["explanation"] = (
         "Theorems (Props/C11.v) hold for every history of the model; the model is tied "
@@ -1021,6 +1161,10 @@ def replay(ctx, payload):
         inter = tuple(d["interleave"]) if d.get("interleave") else None
         r = run_reuse_case(d["spec"], hist, pr, inter)
         if r is not None and r[0] != "skip":
+            ctx.violation(r[0], r[1], r[2], d)
+    elif kind == "special":
+        r = run_special_case(d["case"])
+        if r is not None and r[0] not in ("skip", "within"):
             ctx.violation(r[0], r[1], r[2], d)
     elif kind == "stochastic":
         stochastic_part(ctx, random.Random(0))
